@@ -203,8 +203,13 @@ PROPS = {
         coq="Properties/C01.v",
         suites=[dict(STAGE_SUITE, oracles=["delivered_content_not_validated"],
                      diffs=["finals", "log", "stage-files", "status", "receive"]),
-                race_suite(["delivered_content_not_validated", "stalled_duplicate_wrote_into_settled_file"])],
-        rule=STAGE_RULE + RACE_RULE,
+                race_suite(["delivered_content_not_validated", "stalled_duplicate_wrote_into_settled_file"]),
+                # the last step of a delivery: the validated file is put away by fileutil.Move (rename, or copy + remove across file systems)
+                dict(name="move", pkg="./fileutil/", test="TestVerifMove", min_lines=100,
+                     oracles=["file_put_away_differs_from_the_validated_bytes", "moved_file_left_behind"], diffs=["move-failed"])],
+        rule=STAGE_RULE + RACE_RULE + (" move: the real fileutil.Move within one file system, across file systems (/dev/shm, when it is another device) and "
+              "fileutil.Copy on files of 13 sizes around the 8 KiB copy block x {random, zero tail from a block boundary, zero block in the middle, all zeros, "
+              "zero head}: the destination is byte-identical to the source and the source is gone (implementation-only oracles)"),
         level_text=("Proof: invariant over ALL receiver histories (any part order/grouping, duplicates, corruption in transit, overwritten partials, queries, "
                     "cleaning, timers, restarts at quiescence) in which each name is announced with one hash: every file in the final directory hashes to the "
                     "announced hash of its name and that hash is in its log record (C01_delivered_valid_on_D, byte-identity under collision-freeness); "
@@ -280,8 +285,10 @@ PROPS = {
         suites=[dict(name="crash", pkg="./stage/", test="TestVerifCrash", min_lines=30, timeout_quick=900, confirm="crashpoints",
                      oracles=["validated_file_lost_or_misnamed_after_crash", "record_claims_bytes_not_held_after_crash",
                               "delivered_under_lock_name_after_crash", "not_delivered_after_crash_and_resume", "redelivered_after_crash",
-                              "delivered_content_not_validated", "companion_claims_unwritten"]),
-                dict(STAGE_SUITE, oracles=["delivered_content_not_validated", "positive_status_for_another_version"], diffs=["finals", "log"])],
+                              "delivered_content_not_validated", "companion_claims_unwritten", "validated_held_file_lost",
+                              "held_file_left_behind_although_predecessor_delivered"]),
+                dict(STAGE_SUITE, oracles=["delivered_content_not_validated", "positive_status_for_another_version", "validated_held_file_lost",
+                                            "held_file_left_behind_although_predecessor_delivered"], diffs=["finals", "log"])],
         rule=("crash: for each of 10 (thorough 80) seeded protocol scenarios (1..3 files, 1..3 parts each, shuffled, chains, renames) EVERY durable step "
               "of the whole run - every os.Rename/Remove/Create/WriteFile/MkdirAll in stage/, fileutil/, log/ and every log append, intercepted by generated "
               "instrumentation - is enumerated as a crash point: the world is frozen there, the directory tree copied (crash image), a fresh Stage started "
